@@ -468,3 +468,132 @@ def ir_from_jsonable(j):
     ir["params"] = OrderedDict((n, dict(p)) for n, p in j["params"])
     ir["returns"] = None if j.get("returns") is None else OrderedDict((n, dict(p)) for n, p in j["returns"])
     return ir
+
+
+# ------------------------------------------------------------------------------ features from values
+def _typ_class_of(t, name=""):
+    import re
+
+    if name.endswith("kwargs") and t in (None, "Optional[dict]", "dict"):
+        return "kwargs"
+    if t is None:
+        return "none"
+    t = str(t)
+    if t in SCALARS:
+        return "scalar_" + t
+    m = re.match(r"^Optional\[(\w+)\]$", t)
+    if m and m.group(1) in SCALARS:
+        return "optional_" + m.group(1)
+    if t.startswith("Optional["):
+        return "optional_dotted"
+    m = re.match(r"^List\[(\w+)\]$", t)
+    if m:
+        return "list_" + m.group(1)
+    if t.startswith("Literal['") or t.startswith('Literal["'):
+        return "literal_str"
+    if t.startswith("Literal["):
+        return "literal_int"
+    if t == "Union[int, str]":
+        return "union_scalar"
+    if t.startswith("Union[Tuple"):
+        return "union_tuple"
+    if t.startswith("Union["):
+        return "union_names"
+    if t.startswith("Tuple["):
+        return "tuple"
+    return "dotted"
+
+
+def _default_class_of(p):
+    import ast as _ast
+
+    if "default" not in p:
+        return "absent"
+    v = p["default"]
+    if v is None or v in ("None", NoneStr, "```None```"):
+        return "none"
+    if isinstance(v, bool):
+        return "bool_true" if v else "bool_false"
+    if isinstance(v, int):
+        return "int_zero" if v == 0 else ("int_neg" if v < 0 else ("int_large" if v >= 10 ** 9 else "int_pos"))
+    if isinstance(v, float):
+        return "float_neg" if v < 0 else ("float_integral" if v == int(v) else ("float_exp" if v < 1e-4 else "float_pos"))
+    if isinstance(v, str):
+        if len(v) > 6 and v.startswith("```") and v.endswith("```"):
+            inner = v[3:-3].strip()
+            try:
+                node = _ast.parse(inner, mode="eval").body
+            except SyntaxError:
+                return "code_other"
+            if isinstance(node, _ast.List):
+                return "code_list"
+            if isinstance(node, _ast.Tuple):
+                return "code_tuple"
+            if isinstance(node, _ast.Dict):
+                return "code_dict"
+            if isinstance(node, _ast.Call):
+                return "code_dotted_call" if isinstance(node.func, _ast.Attribute) else "code_call"
+            if isinstance(node, _ast.Name):
+                return "code_name"
+            return "code_arith"
+        if v == "":
+            return "str_empty"
+        if v.startswith("(") and v.endswith(")"):
+            return "paren_tuple"
+        if "." in v and not v.startswith("~"):
+            return "str_dot"
+        if "'" in v or '"' in v:
+            return "str_quote"
+        if v.startswith("~"):
+            return "str_path"
+        if " " in v:
+            return "str_space"
+        return "str_plain"
+    return "pyobj"
+
+
+def _doc_class_of(p):
+    d = p.get("doc")
+    if not d:
+        return "absent"
+    if d.startswith("Optional") or d.startswith("(Optional)"):
+        return "optional_word"
+    if len(d) > 110:
+        return "long"
+    return "plain"
+
+
+def feat_from_ir(ir):
+    """Derive the generator-level feature description from an IR's VALUES (used for IRs that
+    doctrans itself produced, e.g. the intermediate IRs of a conversion chain)."""
+    pfeat = OrderedDict()
+    seen_default = False
+    params = ir.get("params") or {}
+    for idx, (name, p) in enumerate(params.items()):
+        kw = name.endswith("kwargs")
+        dc = _default_class_of(p)
+        pfeat[name] = {
+            "idx": idx,
+            "typ_class": _typ_class_of(p.get("typ"), name),
+            "default_class": dc,
+            "doc_class": _doc_class_of(p),
+            "after_defaulted": seen_default,
+            "kind": "kwargs" if kw else "param",
+        }
+        if dc != "absent" and not kw:
+            seen_default = True
+    ret = (ir.get("returns") or {}).get("return_type") if ir.get("returns") else None
+    rfeat = None
+    if ret:
+        rfeat = {"typ_class": _typ_class_of(ret.get("typ")), "default_class": _default_class_of(ret),
+                 "doc_class": _doc_class_of(ret), "kind": "return"}
+    doc = ir.get("doc") or ""
+    n_real = sum(1 for f in pfeat.values() if f["kind"] == "param")
+    return {
+        "n_params": n_real,
+        "kwargs": any(f["kind"] == "kwargs" for f in pfeat.values()),
+        "has_return": ret is not None,
+        "summary_class": ("long" if any(len(l) > 100 for l in doc.split("\n")) else "short") + ("_multi" if "\n" in doc.strip() else ""),
+        "params": pfeat,
+        "ret": rfeat,
+    }
